@@ -189,6 +189,32 @@ sim::Json generate(const std::string& tier, uint64_t seed, uint64_t index) {
     sc.set("driver", "visitor");
     if (label == "LINEAR_CLEAN" || label == "LINEAR_OPTS" || label == "SOLVER_FAILS") label = "GENERAL";
   }
+  else if (rng.chance(0.07)) {
+    // the library flavour of a run: one solver object behind the AMPLS C API, loaded once, then 1..4 rounds of solve + report,
+    // each report to the standard <stub>.sol or to a named file.  A round's report is one driver "run" as far as the .sol goes.
+    sim::Json ses = sim::Json::object();
+    sim::Json lo = sim::Json::array();
+    for (auto& o : opts) lo.push(o);
+    ses.set("load_options", lo);
+    ses.set("api_options", sim::Json::array());
+    sim::Json rounds = sim::Json::array();
+    int nr = (int)rng.range(1, 4);
+    for (int i = 0; i < nr; ++i) {
+      sim::Json rd = sim::Json::object();
+      sim::Json sct = sc["script"];
+      if (sct.has("throw")) sct.erase("throw");             // AMPLSSolve is documented as a plain pass-through; solver exceptions are the caller's
+      if (i) sct.set("status", codes[rng.below(sizeof codes / sizeof *codes)]);
+      rd.set("script", sct);
+      int w = (int)rng.below(5);
+      if (w == 0) rd.set("solfile", "@/named_a.sol"); else if (w == 1) rd.set("solfile", "@/named_b.sol"); else rd.set("solfile", sim::Json());
+      rounds.push(rd);
+    }
+    ses.set("rounds", rounds);
+    // without the -AMPL switch a wantsol option (any source) decides whether a .sol is written at all
+    bool has_wantsol = false; for (auto& o : opts) if (o.compare(0, 7, "wantsol") == 0) has_wantsol = true;
+    ses.set("sol_firm", !has_wantsol);
+    sc.set("session", ses);
+  }
   sc.set("label", label);
   sc.set("faulted", faulted);
   sc.set("wantsol", wantsol);
@@ -207,7 +233,73 @@ std::string cause_of(const std::string& msg) {
   return "other";
 }
 
+// AMPLS-API session: every report that succeeds leaves a complete, dimensionally right file where it was directed and touches no
+// other; a call that fails says so through its return value and the message list.
+void judge_session(const sim::Json& sc, const RunRecord& rec, sim::RunResult& r) {
+  std::string viol, key, detail;
+  auto flag = [&](const std::string& v, const std::string& k, const std::string& d) { if (viol.empty()) { viol = v; key = k; detail = d; } };
+  std::string label = sc["label"].as_str();
+  long nvars = sc["expect"]["nvars"].as_int(), ncons = sc["expect"]["ncons"].as_int();
+  std::string fired_key = "nofault";
+  for (auto& f : rec.faults) if (f.fired) { fired_key = f.role + "." + f.op + "." + f.kind; break; }
+  bool any_fired = fired_key != "nofault" || !rec.fired.empty();
+  if (rec.escaped) flag("ESCAPED_EXCEPTION", cause_of(rec.escaped_what), rec.escaped_what);
+  if (rec.step_budget_exceeded) flag("HANG", fired_key, "step budget exceeded");
+  if (rec.exited) flag("LIBRARY_EXITED", fired_key, "the library terminated the calling process with status " + std::to_string(rec.exit_code));
+  std::string outcome = "loaded";
+  if (rec.rc_load != 0) {
+    outcome = "load-failed";
+    if (rec.api_messages.empty() && !rec.escaped && !rec.exited) flag("SILENT_FAILURE", "load", "AMPLSLoadNLModel returned " + std::to_string(rec.rc_load) + " and AMPLSGetMessages() is empty");
+    if (label == "LINEAR_CLEAN" && !any_fired) flag("STRICT_FAILED", "load", "clean linear model, valid options, no fault: AMPLSLoadNLModel failed: " + (rec.api_messages.empty() ? std::string() : rec.api_messages[0].substr(0, 300)));
+  } else {
+    std::map<std::string, std::string> prev;
+    std::map<std::string, long> writer;      // file -> solve code of the round that wrote it last
+    auto st = rec.files_before.find("stub.sol"); if (st != rec.files_before.end()) prev["stub.sol"] = st->second;
+    size_t i = 0;
+    for (auto& rd : rec.rounds) {
+      const sim::Json& spec = sc["session"]["rounds"][i];
+      std::string target = spec["solfile"].is_null() ? "stub.sol" : spec["solfile"].as_str().substr(2);
+      std::string rk = (spec["solfile"].is_null() ? "std" : "named") + std::string("/") + fired_key;
+      if (!rd.solve_exc.empty()) { r.stats.set("session_solve_threw", 1); prev = rd.sol_files; ++i; continue; }
+      auto it = rd.sol_files.find(target);
+      auto pt = prev.find(target);
+      const bool firm = sc["session"]["sol_firm"].as_bool();
+      bool rewritten = it != rd.sol_files.end() && (pt == prev.end() || pt->second != it->second);
+      if (rd.rc_report == 0) {
+        if (it == rd.sol_files.end()) { if (firm) flag("NO_SOL", rk, "round " + std::to_string(i) + ": AMPLSReportResults returned 0 but " + target + " does not exist"); }
+        else if (firm && !rewritten && writer.count(target) && writer[target] != spec["script"]["status"].as_int() && !any_fired)
+          flag("NO_SOL", rk, "round " + std::to_string(i) + ": AMPLSReportResults returned 0 but " + target + " still holds what it held before");
+      } else if (rec.api_messages.empty() && !rec.escaped) flag("SILENT_FAILURE", "report", "AMPLSReportResults returned " + std::to_string(rd.rc_report) + " and AMPLSGetMessages() is empty");
+      if (it != rd.sol_files.end() && rewritten) {
+        oracle::SolFile sf = oracle::parse_sol(it->second);
+        if (!sf.ok) flag("TRUNCATED_SOL", rk, "round " + std::to_string(i) + ": " + target + " (" + std::to_string(it->second.size()) + " bytes) does not parse: " + sf.error + "; report returned " + std::to_string(rd.rc_report));
+        else if ((sf.ncons != ncons || sf.nvars != nvars || (sf.nduals != 0 && sf.nduals != ncons) || (sf.nprimals != 0 && sf.nprimals != nvars)) && label != "MALFORMED")
+          flag("WRONG_DIMS", rk, "round " + std::to_string(i) + ": NL header has " + std::to_string(ncons) + " cons / " + std::to_string(nvars) + " vars; " + target + " says " +
+               std::to_string(sf.ncons) + " " + std::to_string(sf.nduals) + " " + std::to_string(sf.nvars) + " " + std::to_string(sf.nprimals));
+        else if (label == "LINEAR_CLEAN" && !any_fired && sf.code != spec["script"]["status"].as_int())
+          flag("STRICT_FAILED", "code", "round " + std::to_string(i) + ": clean linear model: the solver's code " + std::to_string(spec["script"]["status"].as_int()) + " became " + std::to_string(sf.code));
+      }
+      for (auto& kv : prev) if (kv.first != target) { auto jt = rd.sol_files.find(kv.first); if (jt == rd.sol_files.end() || jt->second != kv.second) flag("OTHER_FILE_TOUCHED", rk, "round " + std::to_string(i) + " reported to " + target + " but " + kv.first + " changed"); }
+      for (auto& kv : rd.sol_files) if (kv.first != target && !prev.count(kv.first) && kv.first.compare(0, 6, "interm") != 0 && kv.first != "nat.sol") flag("OTHER_FILE_TOUCHED", rk, "round " + std::to_string(i) + " reported to " + target + " but " + kv.first + " appeared");
+      if (rewritten || !writer.count(target)) writer[target] = spec["script"]["status"].as_int();
+      prev = rd.sol_files;
+      ++i;
+    }
+    if (rec.rounds.size() != sc["session"]["rounds"].size() && !rec.escaped && !rec.exited && !rec.step_budget_exceeded) flag("SESSION_INCOMPLETE", "rounds", "only " + std::to_string(rec.rounds.size()) + " rounds ran");
+  }
+  r.nontrivial = true;
+  r.stats.set("label." + label, 1);
+  r.stats.set("session_runs", 1); r.stats.set("session_rounds", (long)rec.rounds.size());
+  r.stats.set("outcome.session-" + outcome, 1);
+  uint64_t t = r.trace_sig;
+  t = sim::fnv1a(std::string("session") + label + outcome + std::to_string(rec.rounds.size()), t);
+  t = sim::fnv1a(sc["expect"]["features"].as_str(), t);
+  r.trace_sig = t;
+  if (!viol.empty()) { r.verdict = viol; r.sig = "C09:" + viol + ":" + key; r.detail = detail; }
+}
+
 void judge(const sim::Json& sc, const RunRecord& rec, sim::RunResult& r) {
+  if (sc.has("session")) { judge_session(sc, rec, r); return; }
   std::string viol, key, detail;
   auto flag = [&](const std::string& v, const std::string& k, const std::string& d) { if (viol.empty()) { viol = v; key = k; detail = d; } };
   std::string label = sc["label"].as_str();
@@ -316,6 +408,13 @@ void judge(const sim::Json& sc, const RunRecord& rec, sim::RunResult& r) {
 // (A hole in the free text of the message keeps the file well-formed, so parsing alone cannot see it.)
 sim::RunResult run(const sim::Json& sc) {
   sim::RunResult r;
+  if (sc.has("session")) {
+    RunRecord srec = run_ampls_session(sc);
+    fill_result(srec, r);
+    judge(sc, srec, r);
+    if (::getenv("VERIF_DUMP")) dump_record(srec);
+    return r;
+  }
   RunRecord rec = run_driver(sc);
   fill_result(rec, r);
   judge(sc, rec, r);
